@@ -217,6 +217,23 @@ fn one_hex(t: &mut Toks) -> PResult<Vec<u8>> {
     Ok(bytes)
 }
 
+thread_local! {
+    /// what the message decoder may pre-allocate from the four announced section counts (set by `dec.dns` only)
+    static PREALLOC_ALLOWANCE: std::cell::Cell<u64> = const { std::cell::Cell::new(0) };
+}
+
+/// `Vec::with_capacity(count)` for the four sections: the counts are read from the header octets 4..12 of the op's argument
+fn announce_sections(hex: &str) {
+    let h = hex.as_bytes();
+    if h.len() >= 24 {
+        let word = |i: usize| u64::from_str_radix(std::str::from_utf8(&h[i..i + 4]).unwrap_or("0"), 16).unwrap_or(0);
+        let qd = word(8);
+        let rrs = word(12) + word(16) + word(20);
+        let a = qd * std::mem::size_of::<Question>() as u64 + rrs * std::mem::size_of::<RR>() as u64;
+        PREALLOC_ALLOWANCE.with(|c| c.set(a));
+    }
+}
+
 /// Shared body of all `dec.*` ops. A panic inside `decode` is caught by the caller of the op
 /// (`panic` / `panic budget`); a panic inside `post` is `panic post`.
 fn dec_common<T>(
@@ -226,10 +243,24 @@ fn dec_common<T>(
     post: impl FnOnce(&T),
 ) -> PResult<String> {
     let bytes = one_hex(t)?;
-    set_budget(bytes.len());
-    let result = decode(Bytes::from(bytes));
+    let len = bytes.len();
+    set_budget(len);
+    let input = Bytes::from(bytes);
+    crate::alloc_count::reset();
+    let result = decode(input);
+    let allocated = crate::alloc_count::taken();
     let cost = verif_take_octets();
     verif_reset(None);
+    if let Ok(var) = std::env::var("VERIF_ALLOC_STATS") {
+        if !var.is_empty() {
+            eprintln!("alloc {} {}", len, allocated);
+        }
+    }
+    let announced = PREALLOC_ALLOWANCE.with(|a| a.replace(0));
+    if allocated > crate::alloc_count::budget(len) + announced {
+        // memory traffic out of proportion to the input: reported like an exhausted octet budget
+        return Ok(format!("panic budget alloc={} len={}", allocated, len));
+    }
     match result {
         Ok(v) => {
             // a panic while cloning / comparing / formatting / querying / re-encoding the returned value is
@@ -258,6 +289,9 @@ where
 }
 
 fn dec_dns(t: &mut Toks) -> PResult<String> {
+    if let Some(h) = t.peek() {
+        announce_sections(h);
+    }
     dec_common(
         t,
         Dns::decode,
